@@ -134,7 +134,7 @@ Judge(t) ==
         b15 == {<<"C10", "dial-became-a-connection-after-the-user-took-his-word-back", t.events[j].h>> :
                   j \in {j \in Idx(t) : t.events[j].ev = "c.new" /\ t.events[j].v = "client"
                                         /\ ~RegisteredBefore(t, t.events[j].h, j) /\ ~AutoBefore(t, t.events[j].h, j)}}
-    IN  b6 \cup b8 \cup b13 \cup b15 \cup HubTrust(t) \cup (IF t.settled THEN b1 \cup b2 \cup b3 \cup b4 \cup b5 \cup b7 \cup b9 \cup b10 \cup b11 \cup b12 \cup b14 ELSE {})
+    IN  b6 \cup b8 \cup b13 \cup b15 \cup HubTrust(t) \cup (IF t.stuck THEN b1 ELSE {}) \cup (IF t.settled THEN b1 \cup b2 \cup b3 \cup b4 \cup b5 \cup b7 \cup b9 \cup b10 \cup b11 \cup b12 \cup b14 ELSE {})
 \* known finding C11/setup-after-the-end-was-reported: a close from another goroutine (Shutdown, Unregister, ...) that falls
 \* between the completing handler's decision and its SetupRemoteDevice call - the connection's own history shows the closed
 \* report BEFORE the set-up
